@@ -31,6 +31,7 @@ def stepLine (c : Lru) (toks : List String) : Lru × String :=
   | ["get", k] => let (c', r) := c.get k.toNat!; (c', resStr r)
   | ["rm", k] => let (c', r) := c.remove k.toNat!; (c', resStr r)
   | ["xdel", k] => (c.externalDelete k.toNat!, "-")
+  | ["xadd", k, n] => (c.externalAdd k.toNat! n.toNat!, "-")
   | ["reopen"] => (c.reopen [], "-")
   | ["reopen", o] => (c.reopen (parseOrder o), "-")
   | ["nop"] => (c, "-")
